@@ -68,11 +68,11 @@ def c_case(c) -> str:
         for g in c["goals"])
     return ("{| C10Corr.s_trace := %s; C10Corr.s_reg := %s; C10Corr.s_ec := %s; C10Corr.s_et := %s; C10Corr.s_ef := %s; "
             "C10Corr.s_valid := %s; C10Corr.s_fitness := %s; C10Corr.s_covered := %s; C10Corr.s_bcov := %s; "
-            "C10Corr.s_lcov := %s; C10Corr.s_lcovd := %s; C10Corr.s_ccovd := %s; C10Corr.s_lfit := %s; "
+            "C10Corr.s_lcov := %s; C10Corr.s_lcovd := %s; C10Corr.s_ccovd := %s; C10Corr.s_lfit := %s; C10Corr.s_cfit := %s; C10Corr.s_ccov := %s; "
             "C10Corr.s_norm := %s; C10Corr.s_goals := %s; C10Corr.s_line_goals := %s; C10Corr.s_code_goals := %s |}") % (
         c_trace(c["trace"]), c_reg(c["reg"]), clist(cZ(x) for x in c["ec"]), clist(cZ(x) for x in c["et"]),
         clist(cZ(x) for x in c["ef"]), cbool(c["valid"]), cQ(c["fitness"]), cbool(c["covered"]), cQ(c["bcov"]),
-        cQ(c["lcov"]), cbool(c["lcovd"]), cbool(c["ccovd"]), cZ(c["lfit"]),
+        cQ(c["lcov"]), cbool(c["lcovd"]), cbool(c["ccovd"]), cZ(c["lfit"]), cZ(c["cfit"]), cQ(c["ccov"]),
         clist(cpair(cdist(d), cQ(q)) for d, q in c["norm"]), goals,
         clist(cpair(cZ(l), cbool(b)) for l, b in c["line_goals"]),
         clist(cpair(cpair(cZ(cid), cbool(b)), cQ(f)) for cid, b, f in c["code_goals"]))
@@ -177,7 +177,36 @@ def observe(sp, tr, ec, et, ef, goal_specs, graphs):
     out["lcov"] = fm.compute_line_coverage(tr, sp)
     out["lcovd"] = fm.compute_line_coverage_fitness_is_covered(tr, sp)
     out["ccovd"] = fm.compute_checked_coverage_statement_fitness_is_covered(tr, sp)
-    out["lfit"] = len(sp.existing_lines) - len(tr.covered_line_ids)   # LineTestSuiteFitnessFunction.compute_fitness
+    # the fitness / coverage function CLASSES of computations.py, driven with a stub suite that holds this trace
+    import pynguin.ga.computations as comp
+
+    class _StubTC:
+        changed = False
+        test_case = None
+
+        def get_last_execution_result(self):
+            return res
+
+    stub_tc = _StubTC()
+    suite = SimpleNamespace(test_case_chromosomes=[stub_tc])
+    executor = SimpleNamespace(subject_properties=sp, execute_multiple=lambda tcs: [], execute=lambda tc: res)
+    out["lfit"] = comp.LineTestSuiteFitnessFunction(executor).compute_fitness(suite)
+    out["cfit"] = comp.StatementCheckedTestSuiteFitnessFunction(executor).compute_fitness(suite)
+    out["ccov"] = comp.TestSuiteStatementCheckedCoverageFunction(executor).compute_coverage(suite)
+    api = {
+        "suite_branch_fitness": comp.BranchDistanceTestSuiteFitnessFunction(executor).compute_fitness(suite),
+        "suite_branch_covered": comp.BranchDistanceTestSuiteFitnessFunction(executor).compute_is_covered(suite),
+        "suite_branch_cov": comp.TestSuiteBranchCoverageFunction(executor).compute_coverage(suite),
+        "suite_line_cov": comp.TestSuiteLineCoverageFunction(executor).compute_coverage(suite),
+        "suite_line_covered": comp.LineTestSuiteFitnessFunction(executor).compute_is_covered(suite),
+        "suite_checked_covered": comp.StatementCheckedTestSuiteFitnessFunction(executor).compute_is_covered(suite),
+        "tc_branch_fitness": comp.BranchDistanceTestCaseFitnessFunction(executor, 0).compute_fitness(stub_tc),
+        "tc_branch_covered": comp.BranchDistanceTestCaseFitnessFunction(executor, 0).compute_is_covered(stub_tc),
+        "tc_branch_cov": comp.TestCaseBranchCoverageFunction(executor).compute_coverage(stub_tc),
+        "tc_line_cov": comp.TestCaseLineCoverageFunction(executor).compute_coverage(stub_tc),
+        "tc_checked_cov": comp.TestCaseStatementCheckedCoverageFunction(executor).compute_coverage(stub_tc),
+    }
+    out["class_api"] = api
     ds = sorted({d for _, d in trace["td"] + trace["fd"]})[:6]
     out["norm"] = [(d, fm.normalise(d)) for d in ds]
     goals = []
@@ -226,6 +255,21 @@ def oracle(c):
         bad.append(("suite:fitness-vs-coverage", f"suite fitness {f!r} but branch coverage {c['bcov']!r}"))
     if (c["lfit"] == 0) != bool(c["lcovd"]) or bool(c["lcovd"]) != (c["lcov"] == 1) or c["lfit"] < 0:
         bad.append(("suite:line", f"line fitness {c['lfit']}, covered {c['lcovd']}, coverage {c['lcov']!r}"))
+    a = c.get("class_api")
+    if a:
+        unex = not c["ec"] and not c["et"] and not c["ef"]
+        pairs = [("suite_line_cov", c["lcov"]), ("suite_line_covered", c["lcovd"]), ("suite_checked_covered", c["ccovd"]),
+                 ("suite_branch_cov", c["bcov"]), ("tc_branch_cov", c["bcov"]), ("tc_line_cov", c["lcov"]), ("tc_checked_cov", c["ccov"])]
+        if unex:
+            pairs += [("suite_branch_fitness", c["fitness"]), ("suite_branch_covered", c["covered"]),
+                      ("tc_branch_fitness", c["fitness"]), ("tc_branch_covered", c["covered"])]
+        for k, v in pairs:
+            if a[k] != v:
+                bad.append((f"class:{k}", f"computations.py {k} gives {a[k]!r} but the metric function gives {v!r}"))
+        if (c["cfit"] == 0) != bool(c["ccovd"]) or bool(c["ccovd"]) != (c["ccov"] == 1) or c["cfit"] < 0:
+            bad.append(("suite:checked", f"checked fitness {c['cfit']}, covered {c['ccovd']}, coverage {c['ccov']!r}"))
+        if (a["suite_branch_fitness"] == 0) != bool(a["suite_branch_covered"]):
+            bad.append(("suite:class:covered-vs-fitness", f"{a['suite_branch_fitness']!r} vs {a['suite_branch_covered']}"))
     for g in c["goals"]:
         gf = g["fitness"]
         if not (math.isfinite(gf) and gf >= 0):
